@@ -147,6 +147,21 @@ int main(void)
     CHECK(liberasurecode_backend_available((ec_backend_id_t)bid) == 0, "backend_available for an id outside the enum");
     free(b);
 #endif
+#if MODE == 7
+    /* encode_cleanup accepts either array alone (it is also what encode's own error path passes) */
+    {
+        char **ed = NULL, **ep = NULL; uint64_t fl = 0;
+        ASSUME(!bad_desc);
+        int rc = liberasurecode_encode(desc, (char *)src, LEN, &ed, &ep, &fl);
+        CHECK(rc == 0, "encode");
+        if (rc == 0) {
+            int first = vin_bool();
+            CHECK(liberasurecode_encode_cleanup(desc, first ? ed : NULL, first ? NULL : ep) == 0, "encode_cleanup with one array");
+            CHECK(liberasurecode_encode_cleanup(desc, first ? NULL : ed, first ? ep : NULL) == 0, "encode_cleanup with the other array");
+        }
+        CHECK(liberasurecode_decode_cleanup(desc, NULL) == 0, "decode_cleanup(NULL) on a live instance");
+    }
+#endif
     CHECK(liberasurecode_instance_destroy(desc) == 0, "destroy");
     /* a destroyed descriptor is refused */
     CHECK(liberasurecode_get_minimum_encode_size(desc) < 0 && liberasurecode_instance_destroy(desc) < 0, "destroyed descriptor is refused");
